@@ -27,7 +27,7 @@ def compile_failures(subjects, idxs, derive_extern=None):
 
 
 def explore(res, tag, subjects, phases=None, kind_to_key=None, derive_dep=None, derive_extern=None,
-            extra_deps="", timeout=3600, keep=True, extra_crates=None):
+            extra_deps="", timeout=3600, keep=True, extra_crates=None, opt=False):
     """Build + run `subjects`; feed everything into `res` (common.Result). Returns the merged raw
     result (stats per subject id etc.)."""
     by_id = {s.sid: s for s in subjects}
@@ -36,7 +36,7 @@ def explore(res, tag, subjects, phases=None, kind_to_key=None, derive_dep=None, 
     not_compiling = {}
     for attempt in range(4):
         ws, batches, failures = e3.build_workspace(tag, active, derive_dep=derive_dep, extra_deps=extra_deps,
-                                                   extra_crates=extra_crates)
+                                                   extra_crates=extra_crates, opt=opt)
         if not failures:
             break
         bad = {}
